@@ -45,7 +45,7 @@ LEVEL_TEXT = ('Proved in Lean for every valid boundary, every preamble without a
               'cursor that C05 proves SizedReader refines for every fragmentation and buffer size (bridge theorem '
               'C04_readline_is_cursor); stream offset <= Content-Length from C05. Partial: name/filename/content-type '
               'extraction, list promotion of same-name parts and the zero-part body are modelled and compared with '
-              'the real code on generated bodies but not covered by theorems; chunked bodies are outside (F23).')
+              'the real code on generated bodies but not covered by theorems; so are bodies without a declared length (F23).')
 LEVEL_NOTE = ('Trusted: Lean kernel, the hand models lean/CpModel/Multipart.lean + Reader.lean as validated by the '
               'differential run (POST through in-process WSGI under fragmentation / buffer sizes / thresholds), '
               'tempfile, the harness. httputil.HeaderMap / header_elements / parse_header are modelled without proof.')
@@ -55,7 +55,8 @@ TRUSTED_BASE = [
     'model side; httputil.HeaderMap / header_elements are modelled only for the header shapes generated',
 ]
 ASSUMPTIONS = [
-    'the request declares a Content-Length and the connection delivers that many bytes (chunked bodies: see finding)',
+    'theorems: the request declares a Content-Length and the connection delivers that many bytes; bodies without '
+    'a declared length (Transfer-Encoding: chunked) are covered by the correspondence run only (finding F23, repaired)',
     'plain fields carry UTF-8 text, file parts arbitrary bytes; part content types are not '
     'application/x-www-form-urlencoded or multipart/* (those are re-parsed by nested processors)',
 ]
@@ -303,9 +304,7 @@ def oracle(case, obs):
     pre_marker = any(l.strip(WS) == b'--' + b for l in bytes.fromhex(case.get('preamble_hex', '')).split(b'\n'))
     exp_params, exp_parts = expected(case)
     sig = None
-    if case.get('chunked'):
-        sig = 'F23:chunked_parts_after_eof_dropped'
-    elif near:
+    if near:
         sig = 'F7:near_miss_delimiter'
     elif pre_marker:
         sig = 'preamble_marker'     # outside the statement (preamble text must not contain a marker line)
@@ -318,10 +317,8 @@ def oracle(case, obs):
             what = 'parameters differ at %r: received %s, sent %s' % (
                 names[:3], json.dumps({k: got.get(k) for k in names[:2]})[:300],
                 json.dumps({k: exp_params.get(k) for k in names[:2]})[:300])
-            if case.get('chunked') and not _is_prefix_loss(got, exp_params):
-                sig2 = 'content'
-            else:
-                sig2 = sig or 'content'
+            sig2 = sig or ('content:chunked_parts_lost' if case.get('chunked') and _is_prefix_loss(got, exp_params)
+                           else 'content')
             bad.append((what, sig2))
         elif case.get('subtype', 'form-data') == 'form-data' and obs['parts'] != exp_parts:
             bad.append(('unnamed parts differ: received %s, sent %s'
@@ -465,6 +462,9 @@ def gen_case(rng, big=False):
             'trailing_crlf': trailing, 'beyond_hex': beyond.hex(), 'bufsize': bufsize, 'frag': frag,
             'maxram': maxram, 'subtype': 'mixed' if rng.random() < 0.15 else 'form-data',
             'quote_boundary': rng.random() < 0.3 or ' ' in boundary or ',' in boundary}
+    if rng.random() < 0.1:
+        case['chunked'] = True      # no declared length: the body ends where the connection ends
+        case['beyond_hex'] = ''
     return case
 
 
@@ -503,6 +503,7 @@ def check_cases(ctx, cases, compare=True, stats=True):
             ctx.count('maxram:%d' % case.get('maxram', 1000))
             ctx.count('status:%s' % obs['status'])
             ctx.count('subtype:' + case.get('subtype', 'form-data'))
+            ctx.count('length:' + ('absent(chunked)' if case.get('chunked') else 'declared'))
             if near:
                 ctx.count('content:delim_like(F7)')
             for p in case['parts']:
@@ -523,7 +524,7 @@ def check_cases(ctx, cases, compare=True, stats=True):
         fails = oracle(case, obs)
         for what, sig in fails:
             ctx.oracle_fail(case, what, sig)
-        if model is not None and not case.get('chunked'):
+        if model is not None:
             ctx.compared()
             m = parse_model(model[i], case)
             impl = {'status': obs['status'], 'params': obs['params'] if obs['status'] == 200 else None,
@@ -567,7 +568,7 @@ def _worker(args):
 
 def run(ctx):
     for e in ctx.known:
-        if e.get('status') == 'known' and e.get('witness'):
+        if e.get('witness'):
             check_cases(ctx, [e['witness']], stats=False)
     check_cases(ctx, corpus_cases(), stats=False)
     if ctx.quick():
